@@ -30,6 +30,7 @@ type c11Case struct {
 	From    int64   `json:"from"`
 	Until   int64   `json:"until"`
 	Perturb int     `json:"perturbed_slot"`
+	Base    int     `json:"choices_per_source_slot,omitempty"`
 }
 
 func init() {
@@ -49,10 +50,22 @@ func c11Eval(c *fw.Ctx, k c11Case) (sig, desc string, nontrivial bool) {
 	sbase, dbase := filepath.Join(root, "s"), filepath.Join(root, "d")
 	var files [][]wsp.Ring
 	for f, code := range k.Codes {
-		r := contentByCode(l, k.Now, c10Choices(f, 3), code)
+		nb := 3
+		if k.Base == 2 {
+			nb = 2
+		}
+		r := contentByCode(l, k.Now, c10Choices(f, nb), code)
 		(&BFile{L: l, Rings: r, Base: basePicks(code, len(l.Archs))}).Write(filepath.Join(sbase, "it", "x", []string{"a.wsp", "b.wsp"}[f]))
 		files = append(files, r)
 	}
+	// a second item (one source file) that sorts after x: its destination is created by sum-copy and stays clean,
+	// so a deviation in x is followed by a clean item in every sum-diff run
+	ycode := make([]int, len(k.Codes[0]))
+	for i := range ycode {
+		ycode[i] = (i + len(k.Dst)) % 3
+	}
+	ry := contentByCode(l, k.Now, c10Choices(2, 3), ycode)
+	(&BFile{L: l, Rings: ry}).Write(filepath.Join(sbase, "it", "y", "a.wsp"))
 	until := k.Until
 	if until == 0 {
 		until = k.Now
@@ -67,7 +80,7 @@ func c11Eval(c *fw.Ctx, k c11Case) (sig, desc string, nontrivial bool) {
 	case "fresh":
 		(&BFile{L: l, Rings: dst}).Write(dpath)
 	case "file":
-		dst = contentByCode(l, k.Now, c08DstChoices, k.Dst)
+		dst = contentByCode(l, k.Now, c08DstChoices[:2], k.Dst)
 		(&BFile{L: l, Rings: dst, Base: basePicks(k.Dst, len(l.Archs))}).Write(dpath)
 	case "coarser-equal":
 		// the destination already equals the sum in every archive but the finest
@@ -132,6 +145,24 @@ func c11Eval(c *fw.Ctx, k c11Case) (sig, desc string, nontrivial bool) {
 			}
 		}
 	}
+	// item y: created and equal to its single source
+	if yb, err := os.ReadFile(filepath.Join(dbase, "it", "y", "sum.wsp")); err != nil {
+		return "C11/sum-copy/second-item-not-copied", ctx + ": the destination of the second matched item was not created", nontrivial
+	} else if yf, err := wsp.Parse(yb); err == nil {
+		yr, _ := yf.Rings()
+		wy, _ := ExpSum(l, [][]wsp.Ring{ry}, k.Archive, k.From, until, k.Now)
+		hy, _ := ExpRead(l, yr, k.Archive, k.From, until, k.Now)
+		for i := range wy {
+			if wy[i] == nil {
+				continue
+			}
+			for j, v := range wy[i].Vals {
+				if !valEqual(v, hy[i].Vals[j]) {
+					return "C11/sum-copy/second-item-differs", fmt.Sprintf("%s: item it.y archive %d value %d is %v, want %v", ctx, i, j, hy[i].Vals[j], v), nontrivial
+				}
+			}
+		}
+	}
 	sd := &wcmd.SumDiffCommand{SrcBase: sbase, ItemPattern: "it/*", SrcPattern: "*.wsp", DestBase: dbase, DestRelPath: "sum.wsp", From: tsOf(k.From), Until: tsOf(k.Until), ArchiveID: k.Archive, TextOut: out}
 	err, pn = RunCommand(k.Now, sd)
 	text := readAndRemove(out)
@@ -175,64 +206,86 @@ func c11Eval(c *fw.Ctx, k c11Case) (sig, desc string, nontrivial bool) {
 }
 
 func runC11(c *fw.Ctx) {
-	ld := LayoutByTag("L4")
-	clocks := Clocks(ld.Archs, false, []string{"mid"})
-	now := clocks[1]
-	rmax, r0 := ld.Archs[1].Ret(), ld.Archs[0].Ret()
-	wins := [][2]int64{{0, 0}, {now - 3, now - 1}, {now - r0 - 2, 0}, {now - rmax - 3, now - rmax + 2}}
-	three := allCodes(5, 3)
-	dsts := allCodes(5, 2)
-	c.R.Bounds["contents"] = "L4: two source files x 3^5 hole patterns each (every 3rd pair in quick, all 59049 in thorough) x destinations {missing, never written, equal to the sum in coarser archives only, 8 (32 thorough) arbitrary contents}"
+	type plan struct {
+		tag   string
+		base  int // choices per slot of the two source files
+		every int // quick: take every n-th source pair
+	}
+	plans := []plan{{"L4", 3, 5}, {"L10", 2, 1}}
+	c.R.Bounds["contents"] = "L4: two source files x 3^5 hole patterns each (every 5th pair in quick, all 59049 in thorough); L10 (three levels, 6 slots): two source files x 2^6 each (all 4096 pairs); destinations {missing, never written, equal to the sum in coarser archives only, 8 (32 thorough) arbitrary contents}; a second single-file item in every world"
 	idx := 0
-	for _, a := range three {
-		for _, b := range three {
-			idx++
-			if !c.Thorough() && idx%3 != 0 {
-				continue
-			}
-			if !c.Mine() {
-				continue
-			}
-			if c.Expired() {
-				return
-			}
-			kinds := []string{"missing", "fresh", "coarser-equal"}
-			for di := -3; di < len(dsts); di++ {
-				if di >= 0 && !c.Thorough() && (di+idx)%4 != 0 {
+	for _, pl := range plans {
+		ld := LayoutByTag(pl.tag)
+		ns := 0
+		for _, a := range ld.Archs {
+			ns += int(a.N)
+		}
+		clocks := Clocks(ld.Archs, false, []string{"mid"})
+		now := clocks[1]
+		rmax, r0 := ld.Archs[len(ld.Archs)-1].Ret(), ld.Archs[0].Ret()
+		wins := [][2]int64{{0, 0}, {now - 3, now - 1}, {now - r0 - 2, 0}, {now - rmax - 3, now - rmax + 2}}
+		srcs := allCodes(ns, pl.base)
+		dsts := allCodes(ns, 2)
+		if len(dsts) > 32 {
+			dsts = dsts[:32]
+		}
+		archs := []int{-1}
+		for i := range ld.Archs {
+			archs = append(archs, i)
+		}
+		for _, a := range srcs {
+			for _, b := range srcs {
+				idx++
+				if !c.Thorough() && idx%pl.every != 0 {
 					continue
 				}
-				kind := "file"
-				var d []int
-				if di < 0 {
-					kind = kinds[di+3]
-				} else {
-					d = dsts[di]
+				if !c.Mine() {
+					continue
 				}
-				for ai, arch := range []int{-1, 0, 1} {
-					for wi, w := range wins {
-						if (ai > 0 || wi > 0) && (idx+di+ai+wi)%5 != 0 {
-							continue
-						}
-						k := c11Case{Layout: "L4", Now: now, Codes: [][]int{a, b}, Dst: d, DstKind: kind, Archive: arch, From: w[0], Until: w[1], Perturb: idx + di + 3}
-						sig, desc, nt := c11Eval(c, k)
-						c.Count("evaluations", 1)
-						if nt {
-							c.Count("distinct_nontrivial", 1)
-						}
-						c.Outcome(kind)
-						if sig != "" {
-							n := 0
-							for _, cd := range append(k.Codes, k.Dst) {
-								for _, v := range cd {
-									if v != 0 {
-										n++
+				if c.Expired() {
+					return
+				}
+				kinds := []string{"missing", "fresh", "coarser-equal"}
+				for di := -3; di < len(dsts); di++ {
+					if di >= 0 && !c.Thorough() && (di+idx)%4 != 0 {
+						continue
+					}
+					kind := "file"
+					var d []int
+					if di < 0 {
+						kind = kinds[di+3]
+					} else {
+						d = dsts[di]
+					}
+					for ai, arch := range archs {
+						for wi, w := range wins {
+							if (ai > 0 || wi > 0) && (idx+di+ai+wi)%5 != 0 {
+								continue
+							}
+							k := c11Case{Layout: pl.tag, Now: now, Codes: [][]int{a, b}, Dst: d, DstKind: kind, Archive: arch, From: w[0], Until: w[1], Perturb: idx + di + 3}
+							if pl.base == 2 {
+								k.Base = 2
+							}
+							sig, desc, nt := c11Eval(c, k)
+							c.Count("evaluations", 1)
+							if nt {
+								c.Count("distinct_nontrivial", 1)
+							}
+							c.Outcome(pl.tag + "/" + kind)
+							if sig != "" {
+								n := 0
+								for _, cd := range append(k.Codes, k.Dst) {
+									for _, v := range cd {
+										if v != 0 {
+											n++
+										}
 									}
 								}
+								c.Violate(sig, desc, n, k, "")
 							}
-							c.Violate(sig, desc, n, k, "")
-						}
-						if nt && kind == "file" {
-							c.Sample(3, k)
+							if nt && kind == "file" {
+								c.Sample(3, k)
+							}
 						}
 					}
 				}
